@@ -17,6 +17,7 @@
 **                              characters for every N in 1..n (n=300) and around powers of two up to pmax, three sinks, follow-up print
 **                              repeat: argument lists holding the same object several times;
 **                              reentrant: arguments whose c_str/c_int/c_float/show themselves print_to;
+**                              longfmt: formats of 2^12 .. 2^23+4096 characters, main thread and small-stack pthread;
 **                              history: k caught formatting failures, then well-formed formattings;
 **                              recycle: sinks created and destroyed per formatting, alternating types
 **   conv=<letters>             conversions handled by this instance (from "diuoxXcsfFeEgGaAp$")
@@ -1489,6 +1490,130 @@ static void history_mode(void) {
   vf_extra("history_refused_formattings", "%" PRIu64, refused_total);
 }
 
+/* ---- long formats ------------------------------------------------------------------------------------------
+** Well-formed formats of total length 2^12 .. 2^23+4096: "%07d" at the very start, "%%" in the middle,
+** "%s" at the very end, literal text between; printed to a String and to a File (a) on the main thread
+** and (b) from a pthread with a 256 KiB stack.  Each (size, thread) case runs in a forked child, every
+** buffer of the harness is heap allocated.  Compared with snprintf: length, returned position, checksum,
+** first differing byte; the format and the expected text must also still be intact afterwards.
+*/
+
+#include <pthread.h>
+
+#define NLSIZE 6
+static const size_t LSIZE[NLSIZE] = { 1u << 12, 1u << 16, 1u << 18, 1u << 20, 1u << 21, (1u << 23) + 4096 };
+static const char* LSIZEN[NLSIZE] = { "2^12", "2^16", "2^18", "2^20", "2^21", "2^23+4096" };
+static const char* LTHREAD[2] = { "main-thread", "pthread-256KiB-stack" };
+struct lcase { int size, thread; };
+static int R_size = -1, R_thread = -1;
+
+static uint64_t fnv(const char* p, size_t n) { uint64_t h = 1469598103934665603ULL; for (size_t i = 0; i < n; i++) { h ^= (unsigned char)p[i]; h *= 1099511628211ULL; } return h; }
+
+struct lwork { const struct lcase* lc; char* fmt; size_t flen; char* want; size_t wlen; uint64_t fsum, wsum; };
+
+static void* long_worker(void* arg) {
+  struct lwork* w = arg;
+  const char* sz = LSIZEN[w->lc->size], *th = LTHREAD[w->lc->thread];
+  for (int k = 0; k < 2; k++) {
+    var a1 = $I(42), a2 = $S("tail");
+    var args = tuple(a1, a2);
+    char* got = NULL; size_t gl = 0; int ret;
+    var str = NULL; FILE* fp = NULL; char* mb = NULL; size_t ms = 0;
+    if (k == 0) {
+      str = new_raw(String, $S(PREFIX));
+      ret = print_to_with(str, 0, w->fmt, args);
+      got = c_str(str); gl = strlen(got);
+    } else {
+      fp = open_memstream(&mb, &ms);
+      if (!fp) { dprintf(hpipe[1], "V\tlongfmt/%s/%s/harness\topen_memstream failed\n", sz, th); _exit(3); }
+      var f = $(File, fp);
+      ret = print_to_with(f, 0, w->fmt, args);
+      fflush(fp);
+      got = mb; gl = ms;
+    }
+    const char* sym = NULL;
+    size_t d = 0, m = gl < w->wlen ? gl : w->wlen;
+    while (d < m && got[d] == w->want[d]) d++;
+    if (fnv(w->fmt, w->flen) != w->fsum || fnv(w->want, w->wlen) != w->wsum) sym = "memory-outside-destination-modified";
+    else if (gl != w->wlen) sym = gl < w->wlen ? "text-truncated" : "extra-characters-after-text";
+    else if (d < w->wlen) sym = "text-differs";
+    else if (ret != (int)w->wlen) sym = "position";
+    if (sym) {
+      dprintf(hpipe[1], "V\tlongfmt/%s/%s/%s/%s\tformat of %zu characters (\"%%07d\" + literal + \"%%%%\" + literal + \"%%s\") on the %s into a %s: wrote %zu characters (checksum %016" PRIx64 "), returned %d, first differing byte at %zu; "
+        "snprintf writes %zu characters (checksum %016" PRIx64 ")\n",
+        sz, th, SINKNAME[k], sym, w->flen, th, SINKNAME[k], gl, fnv(got, gl), ret, d, w->wlen, w->wsum);
+      _exit(3);
+    }
+    if (str) del_raw(str);
+    if (fp) { fclose(fp); free(mb); }
+  }
+  return NULL;
+}
+
+static void long_child(void* arg) {
+  const struct lcase* lc = arg;
+  size_t L = LSIZE[lc->size];
+  struct lwork w; memset(&w, 0, sizeof w);
+  w.lc = lc; w.flen = L;
+  w.fmt = malloc(L + 1);
+  static const char al[] = "abcdefghijklmnopqrstuvwxyz0123456789 ABCDEFGHIJKLMNOPQRSTUVWXYZ.,;:-_";
+  for (size_t i = 0; i < L; i++) w.fmt[i] = al[i % (sizeof al - 1)];
+  w.fmt[L] = 0;
+  memcpy(w.fmt, "%07d", 4);                 /* a conversion at the very start */
+  memcpy(w.fmt + L / 2, "%%", 2);           /* %% in the middle */
+  memcpy(w.fmt + L - 2, "%s", 2);           /* a conversion at the very end */
+  w.want = malloc(L + 64);
+  int n = snprintf(w.want, L + 64, w.fmt, 42, "tail");
+  if (n < 0 || (size_t)n >= L + 64) { dprintf(hpipe[1], "V\tlongfmt/%s/%s/harness\tsnprintf failed\n", LSIZEN[lc->size], LTHREAD[lc->thread]); _exit(3); }
+  w.wlen = (size_t)n;
+  w.fsum = fnv(w.fmt, L); w.wsum = fnv(w.want, w.wlen);
+  if (lc->thread == 0) long_worker(&w);
+  else {
+    pthread_attr_t at; pthread_attr_init(&at);
+    pthread_attr_setstacksize(&at, 256 * 1024);
+    pthread_t t;
+    if (pthread_create(&t, &at, long_worker, &w) != 0) { dprintf(hpipe[1], "V\tlongfmt/%s/%s/harness\tpthread_create failed\n", LSIZEN[lc->size], LTHREAD[lc->thread]); _exit(3); }
+    pthread_join(t, NULL);
+  }
+  dprintf(hpipe[1], "OK\t%zu\n", w.wlen);
+}
+
+static void longfmt_mode(void) {
+  int nsizes = (int)vf_param_i("sizes", 5);        /* 5: up to 2^21, 6: all */
+  if (nsizes > NLSIZE) nsizes = NLSIZE;
+  uint64_t cases = 0;
+  for (int sz = 0; sz < nsizes; sz++) for (int th = 0; th < 2; th++) {
+    if (R_on && ((R_size >= 0 && sz != R_size) || (R_thread >= 0 && th != R_thread))) continue;
+    struct lcase lc = { sz, th };
+    vf_watchdog(300);
+    vf_set_cur("longfmt size=%d thread=%d | format of %s characters on the %s, String and File sink", sz, th, LSIZEN[sz], LTHREAD[th]);
+    if (pipe(hpipe) != 0) { perror("h_fmt: pipe"); _exit(2); }
+    struct vf_child ch = vf_fork_run(long_child, &lc, 120);
+    close(hpipe[1]);
+    static char line[4096];
+    ssize_t n = 0, r;
+    while ((r = read(hpipe[0], line + n, sizeof line - 1 - n)) > 0) n += r;
+    line[n > 0 ? n : 0] = 0;
+    close(hpipe[0]);
+    cases++;
+    vf.evaluations += 2; vf.executions += 2;
+    if (strncmp(line, "OK\t", 3) == 0 && ch.exited && ch.status == 0) {
+      { char* nl = strchr(line, '\n'); if (nl) *nl = 0; }
+      if (count_nt && LSIZE[sz] >= (1u << 18)) vf.nontrivial++;        /* at least as long as the small thread stack */
+      if (vf_want_sample()) vf_sample("format of %s characters on the %s: String and File hold the %s characters snprintf writes", LSIZEN[sz], LTHREAD[th], line + 3);
+    } else if (strncmp(line, "V\t", 2) == 0) {
+      char* l2 = line + 2; char* tab = strchr(l2, '\t');
+      if (tab) { *tab = 0; char* nl = strchr(tab + 1, '\n'); if (nl) *nl = 0; vf_violation(l2, NULL, "%s", tab + 1); }
+    } else {
+      char lab[200];
+      snprintf(lab, sizeof lab, "longfmt/%s/%s/%s", LSIZEN[sz], LTHREAD[th], ch.signaled ? (ch.timed_out ? "hang" : "crash") : "ended-without-result");
+      vf_violation(lab, NULL, "formatting a well-formed format of %zu characters on the %s ended the process (exit status %d, signal %d)", LSIZE[sz], LTHREAD[th], ch.status, ch.sig);
+    }
+  }
+  vf_extra("longfmt_cases", "%" PRIu64, cases);
+  vf_extra("longfmt_longest", "\"%s\"", LSIZEN[nsizes - 1]);
+}
+
 /* ---- main ---------------------------------------------------------------------------------- */
 
 static void parse_replay(const char* r) {
@@ -1514,6 +1639,11 @@ static void parse_replay(const char* r) {
     if ((p = strstr(r, " a="))) R_a = atoi(p + 3);
     if ((p = strstr(r, " b="))) R_b = atoi(p + 3);
     if ((p = strstr(r, " obj="))) R_obj = atoi(p + 5);
+    return;
+  }
+  if (strncmp(r, "longfmt", 7) == 0) {
+    if ((p = strstr(r, " size="))) R_size = atoi(p + 6);
+    if ((p = strstr(r, " thread="))) R_thread = atoi(p + 8);
     return;
   }
   if (strncmp(r, "history", 7) == 0) {
@@ -1567,6 +1697,7 @@ int main(int argc, char** argv) {
     else if (strncmp(vf.replay, "recycle", 7) == 0) mode = "recycle";
     else if (strncmp(vf.replay, "reentrant", 9) == 0) mode = "reentrant";
     else if (strncmp(vf.replay, "history", 7) == 0) mode = "history";
+    else if (strncmp(vf.replay, "longfmt", 7) == 0) mode = "longfmt";
     else if (R_v >= 1000) { mode = "show"; R_h = R_v - 1000; R_v = -1; }
     else mode = "grid";
   }
@@ -1577,6 +1708,9 @@ int main(int argc, char** argv) {
     repeat_mode();
   } else if (strcmp(mode, "reentrant") == 0) {
     reentrant_mode();
+  } else if (strcmp(mode, "longfmt") == 0) {
+    vf.phase = "longfmt";
+    longfmt_mode();
   } else if (strcmp(mode, "history") == 0) {
     vf.phase = "history";
     history_mode();
